@@ -9,7 +9,13 @@
               rb: DagReader returned exactly the input; rsize/gmode/gmtime: what the reader reports
               vt: error text of the code's own VerifyTrickleDagStructure ("" = none; "-" for balanced)
      Reimport h cid                                         the same input and parameters imported again
-     Append   from h csz L2 tree rb rsize vt                trickle.Append of L2 more bytes to file `from`
+     Append   from h csz L2 tree rb rsize vt cb via         append of L2 more bytes to file `from`, hashed with CID builder cb,
+              reached via "trickle" (trickle.Append on a plain DAG service) or "modifier" (DagModifier append); the tree is
+              re-read from the DAG service by CID: a link the service cannot resolve is a node k = "missing"; nodes carry
+              cv / hk when they differ from the builder's regular CID kind, and el (block length) under the identity builder
+     AppendRefused from csz L2 cb via errc wtree wrb baseok the append returned an error (errc: "toolarge" = identity digest
+              over the limit | "other"); wtree/wrb: the same append repeated on a copy of the store whose DAG service accepts
+              every CID (the DAG that was being built), baseok: the base file still reads back in full afterwards
    Trees arrive in compact form (defaults omitted) and are normalised by Norm.                     *)
 EXTENDS UnixFSFile
 CONSTANT Devs
@@ -34,6 +40,15 @@ Norm(t) == LET d == DOMAIN t IN
             ty |-> IF "ty" \in d THEN t.ty ELSE IF t.k = "raw" THEN "none" ELSE "file",
             dl |-> IF "dl" \in d THEN t.dl ELSE IF t.k = "in" THEN 0 ELSE t.s,
             md |-> IF "md" \in d THEN t.md ELSE 0]
+
+\* the CID-layer view of the same projected tree (UnixFSFile, "CID layer and DAG service")
+RECURSIVE NormC(_, _)
+NormC(t, cb) == LET d == DOMAIN t IN
+           [k  |-> t.k,
+            cv |-> IF "cv" \in d THEN t.cv ELSE DefCv(cb, t.k),
+            hk |-> IF "hk" \in d THEN t.hk ELSE DefHk(cb, t.k),
+            el |-> IF "el" \in d THEN t.el ELSE -1,
+            ch |-> IF "ch" \in d THEN TLCEval([i \in 1..Len(t.ch) |-> NormC(t.ch[i], cb)]) ELSE <<>>]
 
 \* chunk sizes a fixed-size chunker must produce for L bytes
 FixedSizes(L, c) == [i \in 1..((L + c - 1) \div c) |-> IF i * c <= L THEN c ELSE L - (i - 1) * c]
@@ -87,7 +102,12 @@ AppendResult(e, b) ==
                ELSE LET a == LeafSizes(t) IN IF e.L2 = 0 THEN <<>> ELSE SubSeq(a, Len(b.fresh) + 1, Len(a))
         all == b.fresh \o nsz
         rec(d) == [b EXCEPT !.tree = t, !.fresh = all, !.base = 0, !.dv = d]
-        pre == b.live /\ b.layout = "tri" /\ e.h \in Slots /\ Sum(nsz) = e.L2
+        ct  == NormC(e.tree, e.cb)
+        pre == b.live /\ b.layout = "tri" /\ e.h \in Slots /\ Sum(nsz) = e.L2 /\ e.cb \in CidBuilders /\ e.via \in Entries
+        \* the appended file is a DAG in the DAG service, whatever the builder and the entry point
+        store ==
+           /\ Chk("every link of the appended DAG resolves in the DAG service (no dangling link)", Resolves(ct))
+           /\ Chk("every CID is of a kind the builder allows (identity only within the digest limit)", AllCidOK(ct, e.cb))
         common ==
            /\ Chk("leaf sizes = old leaves ++ chunks of the appended bytes", LeafSizes(t) = (IF all = <<>> THEN <<0>> ELSE all))
            /\ Chk("sizes consistent, content = old content ++ new bytes", AppendContentOK(b.tree, t, e.L2))
@@ -104,10 +124,39 @@ AppendResult(e, b) ==
            /\ FileChecks(rec(TRUE))
         \* informational (C08 does not demand it): does the append continue the fresh layout?
         fresh == IF t = TrickleLayout([w |-> b.w, lk |-> b.lk, sz |-> all], b.meta) THEN TRUE ELSE PrintT(<<"INFO_NOT_FRESH", l>>)
-    IN  IF ~(pre /\ common) THEN [ok |-> FALSE]
+    IN  IF ~(pre /\ store /\ common) THEN [ok |-> FALSE]
         ELSE IF ideal THEN [ok |-> fresh, h |-> e.h, rec |-> rec(FALSE), dev |-> {}, cid |-> ""]
         ELSE IF asbuilt THEN [ok |-> TRUE, h |-> e.h, rec |-> rec(TRUE), dev |-> {"Dev_C08_AppendTooDeep"}, cid |-> ""]
         ELSE [ok |-> FALSE]
+
+(* An append that returned an error.  Allowed only when the entry point cannot store the DAG (MayRefuse: plain DAG
+   service, identity builder, a node over the digest limit); what it was building -- the witness, the same call on a
+   DAG service that takes every CID -- must be a correct append, and the base file must be untouched.              *)
+RefusedResult(e, b) ==
+    LET wt  == Norm(e.wtree)
+        wc  == NormC(e.wtree, e.cb)
+        nsz == IF e.csz > 0 THEN FixedSizes(e.L2, e.csz)
+               ELSE LET a == LeafSizes(wt) IN SubSeq(a, Len(b.fresh) + 1, Len(a))
+        all == b.fresh \o nsz
+        pre == b.live /\ b.layout = "tri" /\ e.cb \in CidBuilders /\ e.via \in Entries
+        witness ==
+           /\ Chk("refused append: the DAG being built resolves (witness)", e.wok /\ Resolves(wc))
+           /\ Chk("refused append: the DAG being built is old content ++ new bytes (witness)",
+                  LeafSizes(wt) = (IF all = <<>> THEN <<0>> ELSE all) /\ AppendContentOK(b.tree, wt, e.L2) /\ e.wrb)
+        intact == Chk("a failed append leaves the base file intact", e.baseok)
+        ideal == Chk("an append fails only if its DAG service cannot store the DAG (identity digest over the limit, entry without re-hashing)",
+                     e.errc = "toolarge" /\ MayRefuse(e.cb, e.via, wc))
+        \* open finding: the modifier's identity protection covers dag-pb nodes only; a new RAW leaf over the limit is
+        \* handed to the DAG service with its identity CID and the whole append fails
+        newRaw == LET ls == LeavesOf(wc) IN \E i \in (Len(b.fresh) + 1)..Len(ls) :
+                      ls[i].k = "raw" /\ ls[i].hk = "identity" /\ ls[i].el > IdLimit
+        asbuilt == /\ "Dev_C08_IdentityRawLeafRefused" \in Devs
+                   /\ e.via = "modifier" /\ e.cb = "identity" /\ b.lk = "raw" /\ e.errc = "toolarge" /\ newRaw
+    IN  IF ~(pre /\ witness /\ intact) THEN [ok |-> FALSE]
+        ELSE IF asbuilt THEN [ok |-> TRUE, dev |-> {"Dev_C08_IdentityRawLeafRefused"}]
+        ELSE IF ideal THEN [ok |-> TRUE, dev |-> {}]
+        ELSE [ok |-> FALSE]
+ApplyRefused(r) == r.ok /\ dev' = dev \cup r.dev /\ UNCHANGED <<files, cids>>
 
 Apply(r) == /\ r.ok
             /\ files' = [files EXCEPT ![r.h] = r.rec]
@@ -121,7 +170,9 @@ TAppend == IsEvent("Append") /\ Ev.from \in Slots /\ Apply(AppendResult(Ev, file
 ReimportOK(e) == files[e.h].live /\ Chk("Deterministic root CID", e.cid = cids[e.h])
 TReimport == IsEvent("Reimport") /\ ReimportOK(Ev) = TRUE /\ UNCHANGED <<files, dev, cids>>
 
-TNext == TReset \/ TImport \/ TReimport \/ TAppend
+TAppendRefused == IsEvent("AppendRefused") /\ Ev.from \in Slots /\ ApplyRefused(RefusedResult(Ev, files[Ev.from]))
+
+TNext == TReset \/ TImport \/ TReimport \/ TAppend \/ TAppendRefused
 TSpec == TInit /\ [][TNext]_tvars
 
 TraceConstraint == TLCSet(1, IF l - 1 > TLCGet(1) THEN l - 1 ELSE TLCGet(1))
